@@ -175,6 +175,19 @@ let do_query (args : string list) =
              | Pdu.PCF (sn, data) -> Printf.sprintf "CF %d %s" (int_of_z sn) (bytes_to_hex data)
              | Pdu.PFC (fs, bs, st) -> Printf.sprintf "FC %d %d %d" (int_of_z fs) (int_of_z bs) (int_of_z st) in
            Printf.printf "%s candl=%d rxdl=%d\n" p (int_of_z d.Pdu.d_can_dl) (int_of_z d.Pdu.d_rx_dl))
+  | ["seg"; t; hex] ->
+      (* reference segmentation (Spec/Segment.v) under the current configuration (P / TXA lines) *)
+      let txa = match !cur_txa with Some a -> a | None -> failwith "no TXA" in
+      let c = { c_p = !cur_p; c_txa = txa; c_rxa = txa } in
+      let tt = match tat_of t with Some x -> x | None -> !cur_p.p_default_tat in
+      let fs = Segment.seg c tt (hex_to_bytes hex) in
+      print_endline (S.concat " " (L.map frame_str fs))
+  | ["fc"; status] ->
+      (* reference Flow Control frame of the current configuration: Spec/Segment.v spec_frame *)
+      let txa = match !cur_txa with Some a -> a | None -> failwith "no TXA" in
+      let c = { c_p = !cur_p; c_txa = txa; c_rxa = txa } in
+      let d = Address.tx_prefix txa @ [z_of_int (0x30 + int_of_string status); !cur_p.p_blocksize; !cur_p.p_stmin] in
+      print_endline (frame_str (Segment.spec_frame c (Address.tx_arb_id txa Physical) d))
   | _ -> failwith ("query " ^ S.concat " " args)
 
 let () =
